@@ -265,6 +265,215 @@ def view_helpers(prog):
     return out
 
 
+COMBINATORS = {
+    # name: (receiver kind, shape)
+    'then': 'bool', 'map': 'option', 'map_or': 'option', 'unwrap_or_else': 'option', 'and_then': 'option',
+    'map_or_else': 'option', 'is_some_and': 'option', 'unwrap_or': 'option',
+}
+NO_CLOSURE = ('unwrap_or',)
+
+
+def _new_local(host, ty):
+    i = len(host['locals'])
+    host['locals'].append({'i': i, 'ty': ty, 'mut': True, 'span': None})
+    return i
+
+
+def _new_block(host, stmts, term):
+    host['blocks'].append({'cleanup': False, 'stmts': stmts, 'term': term})
+    return len(host['blocks']) - 1
+
+
+def _pl(l, ty, proj=None):
+    return {'l': l, 'p': proj or [], 'ty': ty}
+
+
+def _assign(pl, rv, span):
+    return {'k': 'assign', 'place': pl, 'rv': rv, 'span': span}
+
+
+def _use(op):
+    return {'k': 'use', 'op': op}
+
+
+def _opt(variant, ops):
+    idx = {'None': 0, 'Some': 1}[variant]
+    return {'k': 'agg', 'akind': 'adt', 'path': 'std::option::Option', 'variant': {'name': variant, 'idx': idx, 'fields': ['0'] if ops else []}, 'ops': ops}
+
+
+SPLICED_CLOSURES = set()
+
+
+def _call_closure(prog, host, blk_stmts, clos_op, P, arg_ops, dest_pl, target, span):
+    SPLICED_CLOSURES.add(P.path)
+    """append a block that runs closure P (spliced) with the given argument operands, writes its result to dest_pl and
+    jumps to target; returns the index of the entry block"""
+    pm = P.info['mir']
+    env_ty = pm['locals'][1]['ty'] if len(pm['locals']) > 1 else ''
+    stmts = list(blk_stmts)
+    env_op = clos_op
+    if env_ty.startswith('&') and clos_op.get('k') in ('move', 'copy'):
+        r = _new_local(host, env_ty)
+        stmts.append(_assign(_pl(r, env_ty), {'k': 'ref', 'mut': env_ty.startswith('&mut'), 'bk': 'Shared', 'place': clos_op['place']}, span))
+        env_op = {'k': 'move', 'place': _pl(r, env_ty)}
+    entry = _new_block(host, stmts, {'k': 'goto', 'target': 0, 'span': span})
+    # a pseudo call terminator so that splice() can do its work
+    host['blocks'][entry]['term'] = {'k': 'call', 'callee': {}, 'args': [], 'dest': dest_pl, 'target': target, 'span': span}
+    splice(host, entry, pm, [env_op] + arg_ops, dest_pl, target, span, P.name)
+    return entry
+
+
+def desugar_combinators(prog, F, host):
+    """`cond.then(|| e)`, `opt.map(|x| e)`, `opt.map_or(d, |x| e)`, `opt.unwrap_or_else(|| e)`, `opt.and_then(..)`,
+    `opt.map_or_else(..)`, `opt.is_some_and(..)` with closure literals become the branches they stand for, with the closure
+    bodies spliced in; returns the number of sites rewritten"""
+    n = 0
+    produced = set()        # locals that hold the result of a combinator rewritten here
+    for c in sorted(F.body.calls, key=lambda x: F.body.cfg.rpo.index(x.point[0]) if x.point[0] in F.body.cfg.rpo else 10 ** 6):
+        cal = c.callee or {}
+        nm = cal.get('name')
+        if nm not in COMBINATORS or cal.get('trait'):
+            continue
+        if nm in NO_CLOSURE:
+            # a plain `opt.unwrap_or(d)` stays a call (several rules read it as such); only the tail of a rewritten chain
+            # (`cond.then(|| e).unwrap_or(d)`) is turned into branches as well
+            t0 = host['blocks'][c.point[0]]['term']
+            r0 = t0['args'][0] if t0.get('k') == 'call' and t0.get('args') else None
+            if not (r0 and r0.get('k') in ('move', 'copy') and not r0['place']['p'] and r0['place']['l'] in produced):
+                continue
+        st = cal.get('self_ty') or ''
+        kind = COMBINATORS[nm]
+        if kind == 'bool' and st != 'bool':
+            continue
+        if kind == 'option' and not st.startswith('std::option::Option'):
+            continue
+        cls = [prog.fns.get(x) for x in (cal.get('closure_args') or [])]
+        if nm in NO_CLOSURE:
+            cls = []
+        elif not cls or any(x is None or not x.info.get('mir') for x in cls):
+            continue
+        blk = c.point[0]
+        t = host['blocks'][blk]['term']
+        if t['k'] != 'call' or t.get('target') is None:
+            continue
+        span = t['span']
+        args = t['args']
+        dest = t['dest']
+        target = t['target']
+        dty = dest.get('ty') or ''
+        recv = args[0]
+        if recv.get('k') not in ('move', 'copy'):
+            continue
+        stmts0 = list(host['blocks'][blk]['stmts'])
+        if kind == 'bool':
+            P = cls[0]
+            rty = P.info['mir']['locals'][0]['ty']
+            tmp = _new_local(host, rty)
+            join = _new_block(host, [_assign(dest, _opt('Some', [{'k': 'move', 'place': _pl(tmp, rty)}]), span)], {'k': 'goto', 'target': target, 'span': span})
+            some_b = _call_closure(prog, host, [], args[1], P, [], _pl(tmp, rty), join, span)
+            none_b = _new_block(host, [_assign(dest, _opt('None', []), span)], {'k': 'goto', 'target': target, 'span': span})
+            host['blocks'][blk] = {'cleanup': False, 'stmts': stmts0, 'term': {'k': 'switch', 'discr': recv, 'dty': 'bool', 'targets': [[0, none_b]], 'otherwise': some_b, 'span': span}}
+            n += 1
+            if not dest['p']:
+                produced.add(dest['l'])
+            continue
+        # Option receivers
+        opt_pl = recv['place']
+        d = _new_local(host, 'isize')
+        stmts0.append(_assign(_pl(d, 'isize'), {'k': 'discr', 'place': opt_pl}, span))
+
+        def payload(ty):
+            pp = dict(opt_pl)
+            pp['p'] = list(opt_pl['p']) + [['downcast', 'Some', 1], ['field', 0, '0', 'std::option::Option', ty]]
+            pp['ty'] = ty
+            return {'k': 'copy', 'place': pp}
+        if nm in ('map', 'and_then', 'map_or', 'is_some_and'):
+            P = cls[0]
+            pm = P.info['mir']
+            xty = pm['locals'][2]['ty'] if len(pm['locals']) > 2 else ''
+            rty = pm['locals'][0]['ty']
+            clos_op = args[2] if nm == 'map_or' else args[1]
+            if nm == 'map':
+                tmp = _new_local(host, rty)
+                join = _new_block(host, [_assign(dest, _opt('Some', [{'k': 'move', 'place': _pl(tmp, rty)}]), span)], {'k': 'goto', 'target': target, 'span': span})
+                some_b = _call_closure(prog, host, [], clos_op, P, [payload(xty)], _pl(tmp, rty), join, span)
+                none_b = _new_block(host, [_assign(dest, _opt('None', []), span)], {'k': 'goto', 'target': target, 'span': span})
+            elif nm == 'and_then':
+                some_b = _call_closure(prog, host, [], clos_op, P, [payload(xty)], dest, target, span)
+                none_b = _new_block(host, [_assign(dest, _opt('None', []), span)], {'k': 'goto', 'target': target, 'span': span})
+            elif nm == 'map_or':
+                some_b = _call_closure(prog, host, [], clos_op, P, [payload(xty)], dest, target, span)
+                none_b = _new_block(host, [_assign(dest, _use(args[1]), span)], {'k': 'goto', 'target': target, 'span': span})
+            else:       # is_some_and
+                some_b = _call_closure(prog, host, [], clos_op, P, [payload(xty)], dest, target, span)
+                none_b = _new_block(host, [_assign(dest, _use({'k': 'const', 'ty': 'bool', 'val': 0, 'def': None, 'fn': None, 'promoted': None, 'text': 'false'}), span)], {'k': 'goto', 'target': target, 'span': span})
+        elif nm == 'unwrap_or' and len(args) == 2:
+            some_b = _new_block(host, [_assign(dest, _use(payload(dty)), span)], {'k': 'goto', 'target': target, 'span': span})
+            none_b = _new_block(host, [_assign(dest, _use(args[1]), span)], {'k': 'goto', 'target': target, 'span': span})
+        elif nm == 'unwrap_or_else':
+            P = cls[0]
+            some_b = _new_block(host, [_assign(dest, _use(payload(dty)), span)], {'k': 'goto', 'target': target, 'span': span})
+            none_b = _call_closure(prog, host, [], args[1], P, [], dest, target, span)
+        elif nm == 'map_or_else' and len(cls) == 2 and len(args) == 3:
+            Pd, Pf = cls[0], cls[1]
+            xty = Pf.info['mir']['locals'][2]['ty'] if len(Pf.info['mir']['locals']) > 2 else ''
+            some_b = _call_closure(prog, host, [], args[2], Pf, [payload(xty)], dest, target, span)
+            none_b = _call_closure(prog, host, [], args[1], Pd, [], dest, target, span)
+        else:
+            continue
+        unreach = _new_block(host, [], {'k': 'unreachable', 'span': span})
+        host['blocks'][blk] = {'cleanup': False, 'stmts': stmts0, 'term': {'k': 'switch', 'discr': {'k': 'move', 'place': _pl(d, 'isize')}, 'dty': 'isize', 'targets': [[0, none_b], [1, some_b]], 'otherwise': unreach, 'span': span}}
+        n += 1
+        if not dest['p']:
+            produced.add(dest['l'])
+    return n
+
+
+def thread_discriminants(host):
+    """a block that only switches on the discriminant of a local which its predecessor has just built as a known enum
+    variant is bypassed: the predecessor jumps straight to that variant's arm (the shape left by `a.then(..).unwrap_or(..)`)"""
+    import copy
+    blocks = host['blocks']
+    n = 0
+    for ti in range(len(blocks)):
+        T = blocks[ti]
+        t = T['term']
+        if t.get('k') != 'switch' or not T['stmts']:
+            continue
+        ds = T['stmts'][-1]
+        if not (ds['k'] == 'assign' and ds['rv'].get('k') == 'discr' and not ds['rv']['place']['p']):
+            continue
+        if not (t['discr'].get('k') in ('move', 'copy') and t['discr']['place']['l'] == ds['place']['l'] and not t['discr']['place']['p']):
+            continue
+        L = ds['rv']['place']['l']
+        if any(st['k'] == 'assign' and st['place']['l'] == L for st in T['stmts'][:-1]):
+            continue
+        for xi in range(len(blocks)):
+            X = blocks[xi]
+            if X['term'].get('k') != 'goto' or X['term'].get('target') != ti or xi == ti:
+                continue
+            var = None
+            for st in reversed(X['stmts']):
+                if st['k'] == 'assign' and st['place']['l'] == L:
+                    if not st['place']['p'] and st['rv'].get('k') == 'agg' and st['rv'].get('akind') == 'adt' and st['rv'].get('variant'):
+                        var = st['rv']['variant'].get('idx')
+                    break
+            if var is None:
+                continue
+            tb = t['otherwise']
+            for v, b2 in t['targets']:
+                if v == var:
+                    tb = b2
+            nb = {'cleanup': False, 'stmts': copy.deepcopy(T['stmts']), 'term': {'k': 'goto', 'target': tb, 'span': t.get('span')}}
+            blocks.append(nb)
+            X2 = dict(X)
+            X2['term'] = dict(X['term'])
+            X2['term']['target'] = len(blocks) - 1
+            blocks[xi] = X2
+            n += 1
+    return n
+
+
 def expand(prog):
     """the pre-pass; returns a record of what was expanded (for the evidence)"""
     record = []
@@ -303,16 +512,21 @@ def expand(prog):
         # read-only private helpers of the sorted-list variants (a shared `locate`, a result-to-handle conversion): the list
         # rules are anchored on the public operations, so such helpers are expanded into them
         view = view_helpers(prog)
-        if not cbp and not flg and not view:
-            break
         rec = {}
         changed = False
         for F in list(prog.fns.values()):
             if not F.info.get('mir'):
                 continue
             sites = []
+            local_closure_sites = []
             for c in F.body.calls:
                 cal = c.callee or {}
+                # a closure literal of this very function called directly (`let child = |t: &Self| ..; child(self)`)
+                if cal.get('name') in FN_CALL_NAMES and (cal.get('trait') or '').split('::')[-1] in ('Fn', 'FnMut', 'FnOnce') and c.args:
+                    a0 = strip_ref(c.args[0])
+                    if a0 is not None and a0.kind == 'agg' and a0.extra.get('akind') == 'closure' and a0.extra.get('path') in prog.fns and prog.fns[a0.extra['path']].parent == F.path:
+                        local_closure_sites.append((c.point[0], prog.fns[a0.extra['path']]))
+                        continue
                 H = prog.fns.get(cal.get('path')) if cal.get('path') else None
                 if H is None or (H.path not in cbp and H.path not in flg and H.path not in view) or H.path == F.path:
                     continue
@@ -330,7 +544,9 @@ def expand(prog):
                     if len(binding) != len(cbp.get(H.path, {})):
                         binding = {k: v for k, v in binding.items()}
                     sites.append((c.point[0], H, binding, flags))
-            if not sites:
+            comb = [c for c in F.body.calls if (c.callee or {}).get('name') in COMBINATORS and not (c.callee or {}).get('trait') and ((c.callee or {}).get('closure_args') or (c.callee or {}).get('name') in NO_CLOSURE)
+                    and ((c.callee or {}).get('self_ty') == 'bool' or ((c.callee or {}).get('self_ty') or '').startswith('std::option::Option'))]
+            if not sites and not local_closure_sites and not comb:
                 continue
             # one site per round and function (block numbers of the others stay valid: blocks are only appended)
             host = copy.deepcopy(F.info['mir'])
@@ -357,6 +573,24 @@ def expand(prog):
                             continue
                         splice(host, nb, pm, ops, ct['dest'], ct.get('target'), ct['span'], P.name)
                 record.append({'caller': F.path, 'helper': H.path, 'closures': sorted(binding.values()), 'flags': flags})
+            for (blk, P) in local_closure_sites:
+                ct = host['blocks'][blk]['term']
+                if ct['k'] != 'call' or not P.info.get('mir'):
+                    continue
+                pm = P.info['mir']
+                ops = [ct['args'][0]]
+                for j in range(pm['arg_count'] - 1):
+                    ops.append(tuple_field(ct['args'][1], j, pm['locals'][j + 2]['ty']))
+                if any(o is None for o in ops):
+                    continue
+                splice(host, blk, pm, ops, ct['dest'], ct.get('target'), ct['span'], P.name)
+                SPLICED_CLOSURES.add(P.path)
+                record.append({'caller': F.path, 'helper': P.path, 'closures': [P.path], 'flags': [], 'local_closure': True})
+            if comb:
+                k = desugar_combinators(prog, F, host)
+                if k:
+                    thread_discriminants(host)
+                    record.append({'caller': F.path, 'helper': 'std combinators', 'closures': [], 'flags': [], 'desugared': k})
             info = dict(F.info)
             info['mir'] = host
             nf = prune(prog, Fn(prog, info))
@@ -365,6 +599,23 @@ def expand(prog):
         prog._callees = prog._callers = None
         if not changed:
             break
+    # closure literals whose every use was spliced in are no longer functions of their own
+    still_used = set()
+    for f in prog.fns.values():
+        if not f.info.get('mir'):
+            continue
+        for c in f.body.calls:
+            for ca in (c.callee or {}).get('closure_args') or []:
+                still_used.add(ca)
+            if (c.callee or {}).get('name') in FN_CALL_NAMES and c.args:
+                a0 = strip_ref(c.args[0])
+                if a0 is not None and a0.kind == 'agg' and a0.extra.get('akind') == 'closure':
+                    still_used.add(a0.extra.get('path'))
+    for pth in sorted(SPLICED_CLOSURES):
+        if pth in prog.fns and pth not in still_used:
+            prog.templates[pth] = prog.fns[pth]
+            del prog.fns[pth]
+    SPLICED_CLOSURES.clear()
     # helpers that are now templates only
     dropped = []
     helpers = {r['helper'] for r in record}
